@@ -82,3 +82,31 @@ def _touching(ranges):
 def _c08_touching(case, observed):
     """C08 mirror round trip: some map of the palindrome has two ranges that touch (gap 0)."""
     return case.get("kind") == "mapping" and any(_touching(m[0]) for m in case.get("maps", []))
+
+
+@predicate("lift-needs-split")
+def _c12_lift_split(case, observed):
+    """C12: lift_target approved a lift that has to split an ancestor (the lifted range does not cover all
+    children of every node it is lifted out of), and the split remnant does not fit next to the lifted content."""
+    if case.get("helper") != "lift_target" or "Invalid content for node" not in str(observed):
+        return False
+    from .ref import positions as rp
+    from .ref.schema_model import SchemaModel
+    from . import adapters
+
+    c = adapters.Ctx(case["schema"], case["spec"]) if case.get("spec") else adapters.ctx(case["schema"])
+    ref = rp.RefDoc(c.model, case["doc"])
+    a, b = ref.resolve(case["from"]), ref.resolve(case["to"])
+    br = ref.block_range(a, b)
+    if br is None:
+        return False
+    depth = br[0]
+    target = case["target"]
+    _ = SchemaModel
+    for d in range(depth, target, -1):
+        node = a["nodes"][d]
+        start_i = a["index"][d]
+        end_i = ref.index_after(b, d)
+        if start_i > 0 or end_i < len(node.kids):
+            return True
+    return False
